@@ -188,13 +188,12 @@ pub fn run_history_with(ch: &mut Chooser, scn: &Scn, cfg: &HistCfg, setup: &mut 
         for p in &pids {
             views.insert(p.clone(), if scn.full_views { sess.dump(p) } else { sess.dump_light(p) });
         }
-        if quiescent {
-            points.push(QPoint {
-                at: sess.w.trace_len(),
-                views: views.clone(),
-                quiescent,
-            });
-        }
+        // a snapshot at every activity boundary (structural unless the scenario asks for full views)
+        points.push(QPoint {
+            at: sess.w.trace_len(),
+            views: views.clone(),
+            quiescent,
+        });
         let ops = if ops_done.len() < cfg.max_ops {
             enumerate_ops(&pids, &views, cfg)
         } else {
